@@ -129,8 +129,8 @@ class Graph(object):
         self.nedges = 0
 
 
-def dump_graph(module, cfg_text, workers=16, timeout=3600, use_cache=True):
-    key = _sha(cfg_text, module, *spec_deps(module))
+def dump_graph(module, cfg_text, workers=16, timeout=3600, use_cache=True, raw=False):
+    key = _sha(cfg_text, module + str(raw), *spec_deps(module))
     os.makedirs(CACHE, exist_ok=True)
     cp = os.path.join(CACHE, 'graph_%s_%s.pkl' % (module, key))
     if use_cache and os.path.exists(cp):
@@ -148,7 +148,10 @@ def dump_graph(module, cfg_text, workers=16, timeout=3600, use_cache=True):
         for line in fh:
             if line.startswith(pe):
                 u, ev, o, _, v = json.loads(json.loads(line)[3:])
-                g.edges.setdefault(tuple(u), []).append((ev, o['out'], o['rep'], tuple(v), o['att'], o['cl']))
+                if raw:
+                    g.edges.setdefault(tuple(u), []).append((ev, o, None, tuple(v)))
+                else:
+                    g.edges.setdefault(tuple(u), []).append((ev, o['out'], o['rep'], tuple(v), o['att'], o['cl']))
                 g.nedges += 1
             elif line.startswith(ps):
                 u, proj = json.loads(json.loads(line)[3:])
